@@ -22,4 +22,15 @@ def run(ctx):
     hs = [H('VerifC04History', 'pkg/northbound/gnmi/v2', f, unwind=16, opts={'params': {'sets': n, 'onlycombined': 0}, 'cuts': {BUILDER_GET: 'atomix-map-by-name', PROTO_CODEC: 'noop'}},
             timeout_ms=300000 if ctx.tier == 'quick' else 1800000) for n in sets]
     driver.check_harnesses(ctx, hs)
-    driver.write_evidence(ctx, 'model_checking', 'Set -> commit -> apply -> device; restart + re-push by the configuration controller', {'sets': sets}, [])
+    # protocol side (transition system of the real v2 reconcilers, device unavailable / refusing at will): a proposal reported APPLIED
+    # has reached the device - also when the target was unreachable while a later transaction was rejected behind it ("connected
+    # later"). Waypoint: first transaction committed and not applied, second failed; then every continuation of 14 steps.
+    from props import proto
+    quick = ctx.tier == 'quick'
+    cfgf = dict(nt=1, nx=2, sync=False, rollback=False, faults=True, crash=False)
+    way = {'pred': 'reach:w-CF', 'depth': 18, 'seed': {'pred': 'reach:w-C-', 'depth': 20}, 'variants': 1 if quick else 3}
+    q = [('reach', 28, ['reach:tx1-applied']), ('bad', 22 if quick else 36, ['bad:c02-applied-but-never-sent']),
+         ('bad', 14, ['bad:c02-applied-but-never-sent', 'bad:c02-send-before-merge'], way)]
+    proto.run(ctx, 'C04', [('1x2f', cfgf, q, [])],
+              'data path Set -> commit -> apply -> device, restart + re-push by the configuration controller; transition system: a proposal '
+              'reported APPLIED has reached the device', {'sets': sets})
